@@ -109,7 +109,9 @@ class AstToODataVisitor(visitor.NodeVisitor):
     def visit_BinOp(self, node: ast.BinOp) -> str:
         """:meta private:"""
         left = self._visit_and_paren_if_precedence_lower(node.left, type(node.op))
-        right = self._visit_and_paren_if_precedence_lower(node.right, type(node.op))
+        right = self._visit_and_paren_if_precedence_lower(
+            node.right, type(node.op), or_equal=True
+        )
         return left + " " + self.visit(node.op) + " " + right
 
     def visit_Eq(self, node: ast.Eq) -> str:
@@ -146,7 +148,7 @@ class AstToODataVisitor(visitor.NodeVisitor):
             node.left, type(node.comparator)
         )
         right = self._visit_and_paren_if_precedence_lower(
-            node.right, type(node.comparator)
+            node.right, type(node.comparator), or_equal=True
         )
         return left + " " + self.visit(node.comparator) + " " + right
 
@@ -161,7 +163,9 @@ class AstToODataVisitor(visitor.NodeVisitor):
     def visit_BoolOp(self, node: ast.BoolOp) -> str:
         """:meta private:"""
         left = self._visit_and_paren_if_precedence_lower(node.left, type(node.op))
-        right = self._visit_and_paren_if_precedence_lower(node.right, type(node.op))
+        right = self._visit_and_paren_if_precedence_lower(
+            node.right, type(node.op), or_equal=True
+        )
         return left + " " + self.visit(node.op) + " " + right
 
     def visit_Not(self, node: ast.Not) -> str:
@@ -210,11 +214,13 @@ class AstToODataVisitor(visitor.NodeVisitor):
         )
 
     def _visit_and_paren_if_precedence_lower(
-        self, node: ast._Node, precedence: Type[ast._Node]
+        self, node: ast._Node, precedence: Type[ast._Node], or_equal: bool = False
     ) -> str:
         """
         Transform `node` by visiting it, then wrap the result in parentheses if
         the expressions precedence is lower than that of `precedence`.
+        Binary operators associate to the left, so their right operand also
+        needs parentheses if its precedence is equal (``or_equal``).
 
         :meta private:
         """
@@ -230,7 +236,9 @@ class AstToODataVisitor(visitor.NodeVisitor):
         node_prec = PRECEDENCE.get(node_op, 100)
         check_prec = PRECEDENCE.get(precedence, 100)
 
-        if node_prec < check_prec:
+        if node_prec < check_prec or (
+            or_equal and node_prec == check_prec and node_op in PRECEDENCE
+        ):
             res = "(" + res + ")"
 
         return res
